@@ -37,7 +37,7 @@ def parse_report(r, names):
     return {"status": "RAN", "out": parts[1], "inp": parts[2], "names": parts[3], "extra": parts[4:]}
 
 
-def evaluate(cases, tag, expr_fn=None, shard=40):
+def evaluate(cases, tag, expr_fn=None, shard=40, imports=None):
     """Translate and run all cases inside coqc. Fills case.result (dict)."""
     exprs = []
     ok = []
@@ -53,7 +53,7 @@ def evaluate(cases, tag, expr_fn=None, shard=40):
         c.names = names
         exprs.append((expr_fn or (lambda t: "(report %s)" % t))(term))
         ok.append(c)
-    res = vlib.coq_eval_lines(tag, runlib.COQ_IMPORTS, "", exprs, shard=shard)
+    res = vlib.coq_eval_lines(tag, runlib.COQ_IMPORTS + list(imports or []), "", exprs, shard=shard)
     for c, r in zip(ok, res):
         c.raw = r
         c.result = parse_report(r, c.names)
